@@ -241,7 +241,9 @@ ExecS(P, s, env, st0, ctx) ==
                 n == v.st.cells[c] + v.v
             IN R(env, IF Ok(v.st) THEN Chk(Store(v.st, c, n), n) ELSE v.st)
       [] s.k = "print" ->
-            LET v == EvalE(P, s.e, env, st) IN R(env, IF Ok(v.st) THEN Emit1(v.st, <<"p", v.v>>) ELSE v.st)
+            \* every print statement carries an identifier, so that each output line names
+            \* the statement that produced it (C19 derives the expected breakpoint hits from it)
+            LET v == EvalE(P, s.e, env, st) IN R(env, IF Ok(v.st) THEN Emit1(v.st, <<"p", s.id, v.v>>) ELSE v.st)
       [] s.k = "printg" ->    \* all globals
             R(env, Emit1(st, <<"g", st.cells[1], st.cells[2], st.cells[3], st.cells[4], st.cells[5], st.cells[6]>>))
       [] s.k = "discard" ->   \* CALL as a statement ( f(e)  or  _ = c() )
